@@ -82,7 +82,19 @@ class _TNone(T):
         return VNone()
 
 
+class _TPath(T):
+    """pathlib.Path value: abstractly the (normalised) path string `str(p)`; see pyvc/fsmodel.py"""
+    name = "Path"
+
+    def sort(self):
+        return z3.StringSort()
+
+    def wrap(self, e):
+        return VPath(e)
+
+
 TInt, TReal, TBool, TStr, TNone = _TInt(), _TReal(), _TBool(), _TStr(), _TNone()
+TPath = _TPath()
 
 
 class TUn(T):
@@ -308,6 +320,14 @@ class VUn(V):
         self.t = t
 
 
+class VPath(V):
+    """pathlib.Path: immutable; `e` is the z3 string str(p) (a fixpoint of path normalisation)"""
+    t = TPath
+
+    def __init__(self, e):
+        self.e = z3.StringVal(e) if isinstance(e, str) else e
+
+
 class VNone(V):
     t = TNone
     e = None
@@ -473,7 +493,7 @@ class VUndef(V):
 def typeof(v):
     if isinstance(v, (VInt, VReal, VBool, VStr, VNone)):
         return v.t
-    if isinstance(v, (VUn, VOpt, VRec, VTuple, VSeq, VMap, VSet)):
+    if isinstance(v, (VUn, VOpt, VRec, VTuple, VSeq, VMap, VSet, VPath)):
         return v.t
     raise TypeError("value of %s has no encodable type" % type(v).__name__)
 
@@ -506,6 +526,8 @@ def unwrap(v, t):
         return v.e
     if isinstance(t, _TNone):
         return z3.BoolVal(True)
+    if isinstance(t, _TPath) and isinstance(v, VPath):
+        return v.e
     if isinstance(t, TUn) and isinstance(v, VUn) and v.t == t:
         return v.e
     if isinstance(t, TTuple) and isinstance(v, VTuple):
@@ -516,7 +538,7 @@ def unwrap(v, t):
         if v.t.nm != t.nm:
             raise TypeError("record mismatch %s vs %s" % (v.t, t))
         return t.dt.mk(*[unwrap(v.fields[fn], ft) for fn, ft in t.fields.items()])
-    if isinstance(t, TRec) and getattr(t, "dictlike", False) and isinstance(v, VDictRec):
+    if isinstance(t, TRec) and getattr(t, "dictshape", False) and isinstance(v, VDictRec):
         # a dict literal with constant string keys stored where a dict-shaped record is expected
         extra = [k for k in v.fields if k not in t.fields]
         missing = [k for k in t.fields if k not in v.fields and k not in t.optkeys]
@@ -541,12 +563,17 @@ def unwrap(v, t):
     raise TypeError("cannot encode %s as %s" % (type(v).__name__, t))
 
 
+def future_type(rt):
+    """concurrent.futures.Future as a value: the outcome of the submitted call (see externals._tpe_submit)"""
+    return TRec("Future_" + _safe(rt.name), {"raised": TBool, "value": rt, "exc_type": TStr, "exc_msg": TStr})
+
+
 # ---------------------------------------------------------------- type parsing
 
 class TypeEnv:
     def __init__(self):
         self.named = {"int": TInt, "float": TReal, "Real": TReal, "bool": TBool, "str": TStr,
-                      "None": TNone}
+                      "None": TNone, "Path": TPath}
 
     def declare(self, name, t):
         self.named[name] = t
@@ -582,4 +609,6 @@ class TypeEnv:
                 return TTuple([self._p(a) for a in args])
             if head == "Un":
                 return TUn(args[0].id)
+            if head == "Future":
+                return future_type(self._p(args[0]))
         raise KeyError("cannot parse type %s" % ast.dump(n))
